@@ -165,17 +165,17 @@ pub struct Budget {
 
 pub fn budget(mode: PlanMode, thorough: bool) -> Budget {
     let (p, s, c) = match mode {
-        PlanMode::Base => (5, 6, 200),
-        PlanMode::Barrier => (5, 12, 200),
-        PlanMode::FailEnum => (1, 6, 60),
-        PlanMode::Thread => (5, 10, 200),
-        PlanMode::Async => (6, 12, 200),
-        PlanMode::PanicEnum => (1, 4, 60),
-        PlanMode::Cancel => (4, 6, 200),
-        PlanMode::Agree => (4, 4, 200),
+        PlanMode::Base => (8, 8, 200),
+        PlanMode::Barrier => (8, 12, 200),
+        PlanMode::FailEnum => (1, 8, 100),
+        PlanMode::Thread => (8, 10, 200),
+        PlanMode::Async => (8, 12, 200),
+        PlanMode::PanicEnum => (1, 6, 100),
+        PlanMode::Cancel => (6, 6, 200),
+        PlanMode::Agree => (6, 4, 200),
     };
     if thorough {
-        Budget { plans: p * 4, scheds: s * 2, pair_cap: c * 2 }
+        Budget { plans: p * 3, scheds: s * 2, pair_cap: c * 2 }
     } else {
         Budget { plans: p, scheds: s, pair_cap: c }
     }
@@ -274,7 +274,65 @@ pub struct Eval {
 }
 
 /// Runs references + simulation + oracles. `replay`: decisions to follow (None: PRNG proposes).
+/// heartbeat + descriptor of the run in flight, for the wall-clock watchdog
+static HEARTBEAT: std::sync::atomic::AtomicU64 = std::sync::atomic::AtomicU64::new(0);
+static IN_FLIGHT: std::sync::Mutex<Option<Value>> = std::sync::Mutex::new(None);
+pub const WATCHDOG_SECS: u64 = 60;
+
+/// A simulated run that makes no progress for WATCHDOG_SECS of wall-clock time is stuck outside the
+/// scheduler's control (e.g. an expansion that spins). It cannot be unwound: report and exit.
+fn start_watchdog(replaying: bool) {
+    std::thread::spawn(move || {
+        let mut last = HEARTBEAT.load(std::sync::atomic::Ordering::SeqCst);
+        let mut idle = 0u64;
+        loop {
+            std::thread::sleep(std::time::Duration::from_secs(1));
+            let now = HEARTBEAT.load(std::sync::atomic::Ordering::SeqCst);
+            if now != last || IN_FLIGHT.lock().map(|g| g.is_none()).unwrap_or(true) {
+                last = now;
+                idle = 0;
+                continue;
+            }
+            idle += 1;
+            if idle >= WATCHDOG_SECS {
+                let d = IN_FLIGHT.lock().ok().and_then(|g| g.clone()).unwrap_or(Value::Null);
+                if replaying {
+                    println!("{}", json!({"type": "replay", "status": "reproduced", "violation": d["violation"], "note": "the run did not terminate (wall-clock watchdog)"}));
+                    std::process::exit(1);
+                }
+                println!("{}", d);
+                std::process::exit(0);
+            }
+        }
+    });
+}
+
+fn set_in_flight(check: &str, prog: &Prog, kind: Kind, plan: &Plan, strat: Strat, seed: u64, master: u64, tier: &str) {
+    let code = match check {
+        "C03" => Some("C03.hang"),
+        "C08" => Some("C08.not_concurrent"),
+        "C09" => Some("C09.hang"),
+        "C18" => Some("C18.hang"),
+        _ => None,
+    };
+    let v = match code {
+        Some(c) => json!({
+            "type": "violation", "format": 1, "check": check, "property": &c[..3], "violation": c,
+            "message": format!("the simulated run made no progress for {} s of wall-clock time: the evaluation does not terminate (stuck outside the scheduler's control)", WATCHDOG_SECS),
+            "tier": tier, "master_seed": master, "slice": prog.slice, "program_index": prog.id, "program_hash": hash_str(prog.text).to_string(),
+            "program_text": prog.text, "program_size": prog.size, "macro_kind": kind.name(), "plan": plan_to_json(plan), "strategy": strat_to_json(strat),
+            "run_seed": seed.to_string(), "schedule": [], "expected": "termination", "observed": "no termination", "log_hash": "0", "watchdog": true,
+        }),
+        None => json!({"type": "timeout", "check": check, "program_index": prog.id, "macro_kind": kind.name(),
+                       "message": "a simulated run did not terminate; not attributable to this check (liveness belongs to C03/C08/C09/C18)"}),
+    };
+    if let Ok(mut g) = IN_FLIGHT.lock() {
+        *g = Some(v);
+    }
+}
+
 pub fn evaluate(check: &str, prog: &Prog, kind: Kind, plan: &Plan, strat: Strat, seed: u64, replay: Option<Vec<u32>>) -> Eval {
+    HEARTBEAT.fetch_add(1, std::sync::atomic::Ordering::SeqCst);
     let mut np = plan.clone();
     np.panic = None;
     let refnp = run_reference(prog, &np);
@@ -629,6 +687,30 @@ fn plans_for(mode: PlanMode, check: &str, prog: &Prog, kind: Kind, b: Budget, se
                         p.deps = plans::linear_extension_deps(prog, kind, &r0, Some(e), &mut rng, 50);
                     }
                     out.push(p);
+                    // sequential and thread-spawning try macros evaluate / join every branch of a step before the
+                    // failure check, so a panic must surface even when another branch of that step fails: combine
+                    // the panic with one failing position (whether the panic is still reached is decided by the
+                    // reference model). Not for the async kinds, where try_join! may legitimately return first.
+                    if kind.is_try() && !kind.is_async() {
+                        let pos = plans::failable_positions(prog, &r0);
+                        let cands: Vec<(u32, u32)> = pos.iter().copied().filter(|q| *q != (e.ev, e.occ)).collect();
+                        if !cands.is_empty() {
+                            // prefer a failing position of another branch in the same step as the panic
+                            let same_step: Vec<(u32, u32)> = cands
+                                .iter()
+                                .copied()
+                                .filter(|q| {
+                                    r0.events.iter().any(|x| {
+                                        (x.ev, x.occ) == *q && !x.tag.is_empty() && !e.tag.is_empty() && x.tag[0].step == e.tag[0].step && x.tag[0].branch != e.tag[0].branch
+                                    })
+                                })
+                                .collect();
+                            let mut p2 = base.clone();
+                            p2.panic = Some((e.ev, e.occ));
+                            p2.fail.insert(if !same_step.is_empty() && rng.chance(3, 4) { *rng.pick(&same_step) } else { *rng.pick(&cands) });
+                            out.push(p2);
+                        }
+                    }
                 }
             }
         }
@@ -964,6 +1046,7 @@ fn run_cmd(progs: &[&'static Prog], args: &[String]) {
     let t0 = std::time::Instant::now();
     let mut st = Stats::default();
     let mut failures: Vec<(Failure, Value)> = Vec::new();
+    start_watchdog(false);
     let mut pair_index = 0u64;
     'outer: for prog in progs {
         if let Some(o) = only {
@@ -1003,6 +1086,7 @@ fn run_cmd(progs: &[&'static Prog], args: &[String]) {
                 for j in 0..nsched {
                     let rs = hash_all(&[seed, prog.id as u64, kind as u64, pi as u64, j as u64]);
                     let strat = if kind.is_concurrent() { Strat::from_seed(rs, kind.is_async()) } else { Strat::ParentFirst };
+                    set_in_flight(check_name, prog, kind, plan, strat, rs, seed, &tier);
                     let ev = evaluate(check_name, prog, kind, plan, strat, rs, None);
                     st.ref_runs += if plan.panic.is_some() { 2 } else { 1 };
                     if !ev.reachable {
@@ -1076,6 +1160,17 @@ fn replay_cmd(progs: &[&'static Prog], args: &[String]) {
         let same = ev.obs.log_hash.to_string() == v["log_hash"].as_str().unwrap_or("");
         println!("{}", json!({"type": "replay", "status": if same { "reproduced" } else { "log_differs" }, "violation": code, "observed": ev.obs.outcome.short(), "log_hash": ev.obs.log_hash.to_string()}));
         std::process::exit(if same { 1 } else { 0 });
+    }
+    if v["watchdog"].as_bool() == Some(true) {
+        start_watchdog(true);
+        if let Ok(mut g) = IN_FLIGHT.lock() {
+            *g = Some(json!({"violation": code}));
+        }
+        // the original schedule is unknown (the run never finished): propose it again from the run seed
+        let strat = Strat::from_seed(seed, kind.is_async());
+        let ev = evaluate(&check, prog, kind, &plan, strat, seed, None);
+        println!("{}", json!({"type": "replay", "status": "not_reproduced", "observed": ev.obs.outcome.short()}));
+        std::process::exit(0);
     }
     let ev = evaluate(&check, prog, kind, &plan, Strat::Uniform, seed, Some(decisions));
     let has = ev.codes.iter().any(|(c, _)| *c == code);
